@@ -122,7 +122,8 @@ class Runner(object):
     def __init__(self, cfg):
         self.cfg = cfg
         self.sim = Sim(timeout_ms=cfg["timeout_ms"], disconnect_on_timeout=cfg["dot"], hosts=[tuple(h) for h in cfg["hosts"]], shuffle_seed=cfg["shuffle_seed"],
-                       hold_closes=cfg.get("hold", False), cancel_style=cfg.get("cancel_style", "plain"))
+                       hold_closes=cfg.get("hold", False), cancel_style=cfg.get("cancel_style", "plain"),
+                       bytes_groups=cfg.get("bytes_groups", False), discovery=cfg.get("discovery", False))
         self.ntag = 0
         self.closed = False
 
@@ -244,6 +245,8 @@ def gen_cfg(rng, focus):
         "hold": rng.random() < (0.6 if focus == "c20" else 0.35),
         # how the endpoint reports a cancelled connect (Twisted's TCP endpoints: ConnectingCancelledError)
         "cancel_style": rng.choice(["plain", "connecting"]),
+        # group names given as bytes instead of str
+        "bytes_groups": rng.random() < 0.25,
     }
 
 
